@@ -836,6 +836,11 @@ fn handle_order(case: &Case, dir: &Path, o: &mut Outcome) {
     }
     let mut r = Rng::stream(case.seed, "handles");
     let d = dir.join("handles");
+    // half of the runs buffer journal writes in user space (manual journal persist): only the
+    // drop-time persist of the journal makes them reach the file at all
+    let mut cfg2 = case.cfg.clone();
+    cfg2.manual_persist = r.chance(1, 2);
+    let case = &Case { cfg: cfg2, ..case.clone() };
     let mut handles: Vec<H> = vec![];
     let mut expect: std::collections::BTreeMap<Vec<u8>, Vec<u8>> = Default::default();
     let res = std::panic::catch_unwind(std::panic::AssertUnwindSafe(|| -> Result<(), Violation> {
